@@ -12,7 +12,7 @@ Definition edge_in (m : emol) (j d : nat) (r : bool) : Prop :=
   exists row e, nth_error (m_adj m) j = Some row /\ In (Some e) row /\ e_dst e = d /\ e_ring e = r.
 
 (* every ring edge has an edge back *)
-Definition RS (m : emol) : Prop := forall j d, edge_in m j d true -> exists r, edge_in m d j r.
+Definition RS (m : emol) : Prop := forall j d, edge_in m j d true -> edge_in m d j true.
 
 (* m' has the edges of m and the edges listed in [new] (source row, destination, ring flag) *)
 Definition grows (m m' : emol) (new : list (nat * nat * bool)) : Prop :=
@@ -24,11 +24,11 @@ Lemma grows_trans m1 m2 m3 n1 n2 : grows m1 m2 n1 -> grows m2 m3 n2 -> grows m1 
 Proof. intros H1 H2 j d r. rewrite (H2 j d r), (H1 j d r), in_app_iff. tauto. Qed.
 
 Lemma rs_grows m m' new : RS m -> grows m m' new ->
-  (forall j d, In (j, d, true) new -> exists r, In (d, j, r) new \/ edge_in m d j r) -> RS m'.
+  (forall j d, In (j, d, true) new -> In (d, j, true) new \/ edge_in m d j true) -> RS m'.
 Proof.
   intros Hm Hg Hn j d Hin. apply Hg in Hin as [Hin|Hin].
-  - destruct (Hm j d Hin) as [r Hr]. exists r. apply Hg. now left.
-  - destruct (Hn j d Hin) as [r [Hr|Hr]]; exists r; apply Hg; [now right|now left].
+  - apply Hg. left. exact (Hm j d Hin).
+  - destruct (Hn j d Hin) as [Hr|Hr]; apply Hg; [now right|now left].
 Qed.
 
 (* the row update of add_bond_at_loc adds exactly the new bond to the row *)
@@ -103,7 +103,7 @@ Qed.
 
 Lemma rs_ring m a b m' : RS m -> grows m m' [(a, b, true); (b, a, true)] -> RS m'.
 Proof.
-  intros Hm Hg. apply (rs_grows m m' _ Hm Hg). intros j d [H|[H|[]]]; inversion H; subst; exists true; left; cbn; tauto.
+  intros Hm Hg. apply (rs_grows m m' _ Hm Hg). intros j d [H|[H|[]]]; inversion H; subst; left; cbn; tauto.
 Qed.
 Lemma rs_plain m m' new : RS m -> grows m m' new -> (forall j d, ~ In (j, d, true) new) -> RS m'.
 Proof. intros Hm Hg Hn. apply (rs_grows m m' new Hm Hg). intros j d H. destruct (Hn j d H). Qed.
@@ -324,7 +324,7 @@ Proof.
   destruct (e_ring b) eqn:Ering.
   - destruct (e_src b <? e_dst b); [exact (IH Hw Hb' _ _ _ E)|].
     assert (Hrev : exists rv, mg_get_dirbond m (e_dst b) (e_src b) = Ok rv).
-    { destruct (Hrow _ _ _ Hraw Hb1) as [Hs _]. destruct (Hrs curr (e_dst b)) as (r & row & e0 & Hn & Hin & Hd & _); [exists raw, b; auto|].
+    { destruct (Hrow _ _ _ Hraw Hb1) as [Hs _]. destruct (Hrs curr (e_dst b)) as (row & e0 & Hn & Hin & Hd & _); [exists raw, b; auto|].
       unfold mg_get_dirbond, mg_find_dirbond. rewrite Hn. destruct (find_edge_some row (e_src b)) as [e' He']; [exists e0; rewrite Hs; auto|]. rewrite He'. eauto. }
     destruct Hrev as [rv Erv]. rewrite Erv in E. cbn [bind] in E.
     destruct (get_selfies_from_index _) as [Q|e1] eqn:EQ; cbn [bind] in E; [|inversion E; subst; exact (index_nokey _ _ EQ)].
